@@ -20,6 +20,14 @@ func TestC04Family(t *testing.T) {
 	vtx.Explore(t, prof.IsolationFamily("c04-family", nil), r)
 }
 
+// TestC04Dual: UDP socket and stream listener on one ip:port with one relay
+// address generator; the transport is part of the 5-tuple.
+func TestC04Dual(t *testing.T) {
+	r := rep.New("C04")
+	defer r.Write()
+	vtx.Explore(t, prof.IsolationDual("c04-dual", nil), r)
+}
+
 func TestC04TCP(t *testing.T) {
 	r := rep.New("C04")
 	defer r.Write()
